@@ -47,6 +47,9 @@ type ccThread struct {
 	isParked      int32
 	startedClosed bool
 	outBefore     int
+	// state of the connection when a call req parked at inbound.afterNewExchange (exchange
+	// registered, re-check pending) was released; 0 = never parked there
+	stateAtRecheck int
 }
 
 type ccOutCall struct {
@@ -412,6 +415,11 @@ func (w *ccWorld) finishReader(t *ccThread) bool {
 		}
 		switch {
 		case nerr == 1 && code == want:
+		case nerr == 0 && closed && t.outcome[0] == 12 && t.stateAtRecheck != 0 && t.stateAtRecheck != 4 && !w.failure:
+			// the operations run one at a time: between the release of this request (exchange
+			// registered, connection still open) and its end nothing else moved, so it was this
+			// request's own exchange removal that closed the connection -- before it was answered
+			w.fail(fmt.Sprintf("call req %d raced with Close: when it reached its re-check the connection was still open (state %d), yet no declined frame was sent for it and the connection is now Closed -- its own exchange was removed (closing the connection) before the answer", t.id, t.stateAtRecheck))
 		case nerr == 0 && closed:
 		case nerr == 0:
 			tag := ""
@@ -636,6 +644,9 @@ func (w *ccWorld) opRelayDone(t *ccThread, mask int64) bool {
 
 // resume continues a parked operation.
 func (w *ccWorld) resume(t *ccThread, mask int64) bool {
+	if t.kind == 3 && t.park != nil && t.park.Name == ptInNewEx && !w.failure {
+		t.stateAtRecheck = w.state()
+	}
 	if !w.run(t, mask, nil) {
 		return false
 	}
@@ -1021,6 +1032,15 @@ func engineConnClose(rng *rand.Rand, n int, tier string, o *Out) {
 			ok = w.opReader(w.nextInID, 0) && w.opReader(w.nextInID+1, 1<<uint(2+rng.Intn(2))) && w.opCloser(0)
 			w.nextInID += 2
 			nclosers++
+		case 2:
+			// the raced request is the ONLY exchange in flight: its own removal closes the connection
+			labels = append(labels, "D:callreq@registered|close|resume")
+			ok = w.opReader(w.nextInID, 1<<3) && w.opCloser(0)
+			w.nextInID++
+			nclosers++
+			if ok && w.readerBusy != nil {
+				ok = w.resume(w.readerBusy, 0)
+			}
 		}
 		for i := 0; ok && i < steps && !w.infeasible; i++ {
 			var l string
